@@ -34,7 +34,7 @@ CONSTANT Table
 LOWEST == 1  ANDOR == 2  EQUALS == 3  LESSGREATER == 4  SUM == 5  PRODUCT == 6  PREFIX == 7  CALLP == 8  INDEXP == 9
 
 BinToks == {"+", "-", "*", "/", "<", "<=", ">", ">=", "==", "!=", "~=", "&&", "||"}
-AtomToks == {"a", "b", "c", "f", "xs", "1", "2", "true", "nil"}
+AtomToks == {"a", "b", "c", "id", "xs", "1", "2", "true", "nil"}
 
 \* precedences[tok] of parser/precedences.go; LOWEST for every token without an entry
 PrecTok(tok) ==
@@ -54,6 +54,7 @@ Fail(i)    == [ok |-> FALSE, n |-> [t |-> "none"], i |-> i]
 Done(n, i) == [ok |-> TRUE, n |-> n, i |-> i]
 
 Neg(e) == [t |-> "neg", e |-> e]           \* PrefixExpression with operator "-"
+NilX   == [t |-> "nilx"]                   \* a nil expression returned WITHOUT an error (the prefix function of %>)
 
 RECURSIVE ParseExpression(_, _, _), PrattLoop(_, _, _, _), PrefixFn(_, _), InfixFn(_, _, _), ExprList(_, _, _), ListTail(_, _, _, _)
 
@@ -72,7 +73,7 @@ PrattLoop(ts, left, i, prec) ==
 \* prefixParseFns[curToken.Type]()
 PrefixFn(ts, i) ==
   LET tk == Tok(ts, i) IN
-  CASE tk \in {"a", "b", "c", "f", "xs", "nil"} -> Done(Id(tk), i)                    \* parseIdentifier
+  CASE tk \in {"a", "b", "c", "id", "xs", "nil"} -> Done(Id(tk), i)                    \* parseIdentifier
     [] tk = "1" -> Done(IntL(1), i)                                                    \* parseIntegerLiteral
     [] tk = "2" -> Done(IntL(2), i)
     [] tk = "true" -> Done(Bool(TRUE), i)                                              \* parseBoolean
@@ -86,6 +87,7 @@ PrefixFn(ts, i) ==
     [] tk = "[" ->                                                                     \* parseArrayLiteral
          LET l == ExprList(ts, i, "]") IN
          IF ~l.ok THEN Fail(l.i) ELSE Done(Arr(l.n), l.i)
+    [] tk = "%>" -> Done(NilX, i)                                                      \* registerPrefix(E_END, func() { return nil })
     [] OTHER -> Fail(i)                                                                \* noPrefixParseFnError
 
 \* infixParseFns[curToken.Type](left): curToken = ts[i] is the operator / opener
@@ -117,6 +119,17 @@ ListTail(ts, xs, i, end) ==
   THEN LET r == ParseExpression(ts, i + 2, LOWEST) IN
        IF ~r.ok THEN r ELSE ListTail(ts, Append(xs, r.n), r.i, end)
   ELSE IF Tok(ts, i + 1) = end THEN Done(xs, i + 1) ELSE Fail(i)
+
+\* parseProgram over one output tag `<%= ts`, where ts ends with "%>": the first statement is the tag's return
+\* statement, every further one an expression statement; after each statement one nextToken; a statement that
+\* prints as nothing (the nil expression of %>) is dropped.  ok = no error was recorded.
+RECURSIVE TagLoop(_, _, _)
+TagLoop(ts, i, acc) ==
+  IF i > Len(ts) THEN [ok |-> TRUE, stmts |-> acc]
+  ELSE LET r == ParseExpression(ts, i, LOWEST) IN
+       IF ~r.ok THEN [ok |-> FALSE, stmts |-> <<>>]
+       ELSE TagLoop(ts, r.i + 1, IF r.n = NilX /\ acc # <<>> THEN acc ELSE Append(acc, r.n))
+ParseTag(ts) == TagLoop(ts, 1, <<>>)
 
 \* the whole expression of an output tag: parsed at LOWEST, and the tag must end right after it
 ParseAll(ts) == LET r == ParseExpression(ts, 1, LOWEST) IN
